@@ -51,7 +51,7 @@ func (c *Ctx) reachableStatic(fn *ssa.Function) []*ssa.Function {
 
 func r101(c *Ctx) {
 	const rule = "R10.1 decision-is-pure-function-of-cookie-value"
-	c.floor(rule, 8)
+	c.floor(rule, 4)
 	root := c.method("RolloutController", "RequestUsesRolloutGroup")
 	allowed := map[string]string{
 		"(*net/http.Request).Cookie": "the request's cookie",
@@ -110,55 +110,215 @@ func r101(c *Ctx) {
 		}
 		c.ob(rule, "effect-free: "+fname(f), f.Pos(), pure, true, detail)
 	}
-	// input: splitValue returns Cookie("kamal-rollout").Value, "" on error
-	sv := c.method("RolloutController", "splitValue")
+	// input and hash: read off RequestUsesRolloutGroup itself (its small helpers - splitValue, valueInAllowlist,
+	// valueInRolloutPercentage, hashForValue in the reference tree - are always expanded into it, so that renaming,
+	// merging or reshaping them changes nothing here)
+	d := c.rolloutDecision()
+	c.ob(rule, "decision/reads-the-kamal-rollout-cookie", root.Pos(), d.ck != nil, true, "the only input of the decision must be r.Cookie(\"kamal-rollout\") (exactly one such call, on the request)")
+	if d.ck != nil {
+		c.ob(rule, "decision/value-or-empty", root.Pos(), d.val != nil && d.okVal, true, "the value the decision is made on must be the cookie's Value, or \"\" when the cookie is absent: "+d.whyVal)
+	}
+	c.ob(rule, "decision/hash-of-the-value-only", root.Pos(), d.okHash, true, "the hash must be computed from the cookie value alone (one FNV-1a 32 hasher, one Write of the value, its Sum32): "+d.whyHash)
+}
+
+// rolloutDecision: the parts of RequestUsesRolloutGroup the rules talk about.
+type rolloutDecisionModel struct {
+	root    *ssa.Function
+	ck      *ssa.Call // r.Cookie("kamal-rollout")
+	val     ssa.Value // the value compared with ""
+	okVal   bool
+	whyVal  string
+	hasher  *ssa.Call
+	write   ssa.CallInstruction
+	sum     *ssa.Call
+	okHash  bool
+	whyHash string
+}
+
+func (c *Ctx) rolloutDecision() *rolloutDecisionModel {
+	root := c.method("RolloutController", "RequestUsesRolloutGroup")
+	d := &rolloutDecisionModel{root: root}
 	cookieName := c.constant(c.server, "RolloutCookieName")
-	var ck *ssa.Call
-	for _, cs := range callsToName(sv, "(*net/http.Request).Cookie") {
-		if call, ok := cs.instr.(*ssa.Call); ok && call.Call.Args[0] == ssa.Value(sv.Params[1]) {
+	nck := 0
+	for _, cs := range callsToName(root, "(*net/http.Request).Cookie") {
+		nck++
+		if call, ok := cs.instr.(*ssa.Call); ok && call.Call.Args[0] == ssa.Value(root.Params[1]) {
 			if s, ok := constString(call.Call.Args[1]); ok && s == constant.StringVal(cookieName.Value.Value) && s == "kamal-rollout" {
-				ck = call
+				d.ck = call
 			}
 		}
 	}
-	c.ob(rule, "splitValue/reads-the-kamal-rollout-cookie", sv.Pos(), ck != nil, true, "the only input of the decision must be r.Cookie(\"kamal-rollout\")")
-	if ck != nil {
-		okV, okE := false, false
-		for _, ret := range normalReturns(sv) {
-			v := retVal(ret, 0)
-			if f, base, ok := fieldLoad(v); ok && f.Name() == "Value" && base == resultOf(ck, 0) {
-				if isNil, _ := nilKnowledge(ret, sameAs(errResultOf(ck))); isNil {
-					okV = true
-				}
+	if nck != 1 {
+		d.ck = nil
+	}
+	// the value: what is compared with ""
+	vals := map[ssa.Value]bool{}
+	for _, b := range root.Blocks {
+		for _, in := range b.Instrs {
+			bo, ok := in.(*ssa.BinOp)
+			if !ok || (bo.Op != token.EQL && bo.Op != token.NEQ) {
 				continue
 			}
-			if s, ok := constString(v); ok && s == "" {
-				if _, nn := nilKnowledge(ret, sameAs(errResultOf(ck))); nn {
-					okE = true
+			for _, pr := range [][2]ssa.Value{{bo.X, bo.Y}, {bo.Y, bo.X}} {
+				if s, ok := constString(pr[1]); ok && s == "" {
+					if _, isC := pr[0].(*ssa.Const); !isC {
+						vals[resolve(pr[0])] = true
+					}
 				}
+			}
+		}
+	}
+	if len(vals) == 1 {
+		for v := range vals {
+			d.val = v
+		}
+	} else {
+		d.whyVal = fmt.Sprintf("%d different values are compared with \"\"", len(vals))
+	}
+	if d.val != nil && d.ck != nil {
+		at := root.Blocks[0]
+		if def, ok := d.val.(ssa.Instruction); ok && def.Block() != nil {
+			at = def.Block()
+		}
+		nV, nE, bad := 0, 0, 0
+		for _, vc := range valueCases(d.val, at) {
+			isNil, nonNil := nilKnowledgeOf(vc.conds, sameAs(errResultOf(d.ck)))
+			if f, base, ok := fieldLoad(vc.val); ok && f.Name() == "Value" && base == resultOf(d.ck, 0) && isNil {
+				nV++
 				continue
 			}
-			okV = false
-			okE = false
-			break
+			if s, ok := constString(vc.val); ok && s == "" && nonNil {
+				nE++
+				continue
+			}
+			bad++
 		}
-		c.ob(rule, "splitValue/value-or-empty", sv.Pos(), okV && okE, true, "splitValue must return the cookie's Value, or \"\" when the cookie is absent")
+		d.okVal = nV >= 1 && nE >= 1 && bad == 0
+		d.whyVal = fmt.Sprintf("cookie.Value on success: %d way(s), \"\" on error: %d way(s), anything else: %d", nV, nE, bad)
 	}
-	// hash depends only on the value
-	hv := c.method("RolloutController", "hashForValue")
-	okH := false
-	for _, cs := range callsIn(hv) {
-		if cs.common().IsInvoke() && cs.common().Method.Name() == "Write" {
-			if cv, ok := cs.common().Args[0].(*ssa.Convert); ok && cv.X == ssa.Value(hv.Params[1]) {
-				okH = true
+	// the hash
+	var hashers []*ssa.Call
+	for _, cs := range callsToName(root, "hash/fnv.New32a") {
+		if call, ok := cs.instr.(*ssa.Call); ok {
+			hashers = append(hashers, call)
+		}
+	}
+	if len(hashers) == 1 {
+		d.hasher = hashers[0]
+		nW, nS := 0, 0
+		okW := false
+		for _, cs := range callsIn(root) {
+			cc := cs.common()
+			if !cc.IsInvoke() || cc.Value != ssa.Value(d.hasher) {
+				continue
+			}
+			switch cc.Method.Name() {
+			case "Write":
+				nW++
+				d.write = cs.instr.(ssa.CallInstruction)
+				if cv, ok := cc.Args[0].(*ssa.Convert); ok && d.val != nil && resolve(cv.X) == d.val {
+					okW = true
+				}
+			case "Sum32":
+				nS++
+				d.sum, _ = cs.instr.(*ssa.Call)
+			default:
+				nW += 2 // anything else done to the hasher (Reset, Sum, ...)
 			}
 		}
+		// the hasher is used for nothing else
+		if refs := d.hasher.Referrers(); refs != nil {
+			for _, r := range *refs {
+				if _, isCall := r.(ssa.CallInstruction); !isCall {
+					if _, isDbg := r.(*ssa.DebugRef); !isDbg {
+						nW += 2
+					}
+				}
+			}
+		}
+		d.okHash = nW == 1 && nS == 1 && okW && d.sum != nil && typeString(d.sum.Type()) == "uint32"
+		d.whyHash = fmt.Sprintf("writes to the hasher: %d (of the cookie value: %v), Sum32: %d", nW, okW, nS)
+	} else {
+		d.whyHash = fmt.Sprintf("%d fnv.New32a calls", len(hashers))
 	}
-	usesRecv := false
-	if refs := hv.Params[0].Referrers(); refs != nil && len(*refs) > 0 {
-		usesRecv = true
+	return d
+}
+
+// isHashCompare: v is float64(hash) <= rc.PercentageSplitPoint (or the mirrored >=) for the decision's hash.
+func (d *rolloutDecisionModel) isHashCompare(c *Ctx, v ssa.Value) bool {
+	bo, ok := v.(*ssa.BinOp)
+	if !ok || (bo.Op != token.LEQ && bo.Op != token.GEQ) || d.sum == nil {
+		return false
 	}
-	c.ob(rule, "hashForValue/hash-of-the-value-only", hv.Pos(), okH && !usesRecv && typeString(hv.Signature.Results().At(0).Type()) == "uint32", true, "the hash must be computed from the cookie value alone (FNV-1a 32) and not from controller state")
+	h, sp := bo.X, bo.Y
+	if bo.Op == token.GEQ {
+		h, sp = bo.Y, bo.X
+	}
+	cv, ok := h.(*ssa.Convert)
+	if !ok || resolve(cv.X) != ssa.Value(d.sum) {
+		return false
+	}
+	f, base, ok := fieldLoad(sp)
+	return ok && f == c.field("RolloutController", "PercentageSplitPoint") && base == ssa.Value(d.root.Params[0])
+}
+
+// memberVerdict: v is true exactly when the cookie value is an element of rc.Allowlist: slices.Contains(rc.Allowlist, value),
+// or the merge a membership loop leaves behind (true under element == value for an element ranging over the whole list, false
+// only once the loop has ended).
+func (d *rolloutDecisionModel) memberVerdict(c *Ctx, v ssa.Value) bool {
+	allowF := c.field("RolloutController", "Allowlist")
+	v = resolve(v)
+	if call, ok := v.(*ssa.Call); ok {
+		if o := calleeObj(call.Common()); o != nil && o.Pkg() != nil && o.Pkg().Path() == "slices" && o.Name() == "Contains" {
+			f, base, ok := fieldLoad(call.Call.Args[0])
+			return ok && f == allowF && base == ssa.Value(d.root.Params[0]) && d.val != nil && resolve(call.Call.Args[1]) == d.val
+		}
+		return false
+	}
+	phi, ok := v.(*ssa.Phi)
+	if !ok {
+		return false
+	}
+	nTrue := 0
+	for _, vc := range valueCases(phi, phi.Block()) {
+		b, isConst := constBool(vc.val)
+		if !isConst {
+			return false
+		}
+		if b {
+			eq := false
+			for _, ce := range vc.conds {
+				cm, ok := ce.asCmp()
+				if !ok || cm.op != token.EQL {
+					continue
+				}
+				for _, pr := range [][2]ssa.Value{{cm.x, cm.y}, {cm.y, cm.x}} {
+					if src, full := fullRangeElem(pr[0]); full && isLoadOfField(src, allowF) && resolve(pr[1]) == d.val {
+						eq = true
+					}
+				}
+			}
+			if !eq {
+				return false
+			}
+			nTrue++
+			continue
+		}
+		// false: after the loop, under nothing but the non-empty-value guard
+		for _, ce := range condsOtherThanLoop(vc.conds) {
+			cm, ok := ce.asCmp()
+			if ok && (resolve(cm.x) == d.val || resolve(cm.y) == d.val) {
+				if s, isS := constString(cm.y); isS && s == "" {
+					continue
+				}
+				if s, isS := constString(cm.x); isS && s == "" {
+					continue
+				}
+			}
+			return false
+		}
+	}
+	return nTrue >= 1
 }
 
 func isGlobalAddr(v ssa.Value) bool { _, ok := v.(*ssa.Global); return ok }
@@ -290,25 +450,20 @@ func foldAt(v ssa.Value, p *ssa.Parameter, val constant.Value) (constant.Value, 
 func r102(c *Ctx) {
 	const rule = "R10.2 monotone-in-percentage-and-total-at-100"
 	c.floor(rule, 4)
-	vp := c.method("RolloutController", "valueInRolloutPercentage")
-	hv := c.method("RolloutController", "hashForValue")
+	d := c.rolloutDecision()
 	spF := c.field("RolloutController", "PercentageSplitPoint")
-	rets := normalReturns(vp)
-	okCmp := false
-	if len(rets) == 1 {
-		if bo, ok := retVal(rets[0], 0).(*ssa.BinOp); ok && (bo.Op == token.LEQ || bo.Op == token.GEQ) {
-			h, sp := bo.X, bo.Y
-			if bo.Op == token.GEQ {
-				h, sp = bo.Y, bo.X
-			}
-			if cv, ok := h.(*ssa.Convert); ok {
-				if call, ok := cv.X.(*ssa.Call); ok && isCallTo(call.Common(), hv) && call.Call.Args[1] == ssa.Value(vp.Params[1]) && isLoadOfField(sp, spF) {
-					okCmp = true
-				}
-			}
+	// every way of answering that is not a constant is the comparison float64(hash(value)) <= rc.PercentageSplitPoint
+	nCmp, okCmp := 0, true
+	for _, rc := range retCases(d.root) {
+		if _, isConst := constBool(rc.vals[0]); isConst {
+			continue
+		}
+		nCmp++
+		if !d.isHashCompare(c, rc.vals[0]) {
+			okCmp = false
 		}
 	}
-	c.ob(rule, "valueInRolloutPercentage/hash(value) <= splitPoint", vp.Pos(), okCmp, true, "inclusion must be the comparison float64(hashForValue(value)) <= rc.PercentageSplitPoint (a value included at one split point stays included at every larger one)")
+	c.ob(rule, "decision/hash(value) <= splitPoint", d.root.Pos(), okCmp && nCmp >= 1, true, "inclusion must be the comparison float64(hash(value)) <= rc.PercentageSplitPoint (a value included at one split point stays included at every larger one)")
 	// the split point stored by the constructor is non-decreasing in `percentage` and >= MaxUint32 at 100
 	nrc := c.fn("NewRolloutController")
 	var spVal ssa.Value
@@ -397,104 +552,91 @@ func r103(c *Ctx) {
 	}
 	c.ob(rule, "loadBalancerForRequest/falls-back-to-active", lbf.Pos(), nActive >= 1 && nRollout >= 1, true, "")
 	// RequestUsesRolloutGroup: empty value => false before allowlist/hash; true only via allowlist or percentage
-	sv := c.method("RolloutController", "splitValue")
-	al := c.method("RolloutController", "valueInAllowlist")
-	vp := c.method("RolloutController", "valueInRolloutPercentage")
-	svc := callsTo(uses, sv)
-	if len(svc) != 1 {
-		c.undecided(rule, "RequestUsesRolloutGroup/shape", uses.Pos(), "expected one splitValue call")
+	d := c.rolloutDecision()
+	if d.val == nil {
+		c.undecided(rule, "RequestUsesRolloutGroup/shape", uses.Pos(), "no single value is tested against the empty string: "+d.whyVal)
 		return
 	}
-	val := svc[0].instr.(*ssa.Call)
-	for _, cs := range append(callsTo(uses, al), callsTo(uses, vp)...) {
-		nonEmpty := false
-		for _, ce := range dominatingConds(cs.instr.Block()) {
+	nonEmptyAt := func(b *ssa.BasicBlock) bool {
+		for _, ce := range dominatingConds(b) {
 			if cm, ok := ce.asCmp(); ok && cm.op == token.NEQ {
-				if s, ok := constString(cm.y); ok && s == "" && cm.x == ssa.Value(val) {
-					nonEmpty = true
-				}
-			}
-		}
-		c.ob(rule, "RequestUsesRolloutGroup/"+cs.common().StaticCallee().Name()+"-only-with-a-cookie-value", cs.pos(), nonEmpty && cs.common().Args[1] == ssa.Value(val), true, "allowlist and percentage may be consulted only for a non-empty cookie value, and on that value")
-	}
-	for _, ret := range normalReturns(uses) {
-		// every value that can be returned is false, a verdict of the allowlist / percentage test, or true on a path where
-		// the allowlist test was true
-		var okSrc func(v ssa.Value, conds []condEdge, depth int) bool
-		okSrc = func(v ssa.Value, conds []condEdge, depth int) bool {
-			if b, isC := constBool(v); isC {
-				if !b {
-					return true
-				}
-				for _, cs := range callsTo(uses, al) {
-					if t, _ := boolFactsOf(conds, sameAs(cs.instr.(*ssa.Call))); t {
+				for _, pr := range [][2]ssa.Value{{cm.x, cm.y}, {cm.y, cm.x}} {
+					if s, ok := constString(pr[1]); ok && s == "" && resolve(pr[0]) == d.val {
 						return true
 					}
 				}
-				return false
 			}
-			if call, isCall := v.(*ssa.Call); isCall && (isCallTo(call.Common(), vp) || isCallTo(call.Common(), al)) {
-				return true
-			}
-			if phi, isPhi := v.(*ssa.Phi); isPhi && depth < 4 {
-				for i, e := range phi.Edges {
-					pred := phi.Block().Preds[i]
-					ec := append(append([]condEdge{}, dominatingConds(pred)...), edgeCond(pred, phi.Block())...)
-					if !okSrc(e, ec, depth+1) {
-						return false
+		}
+		return false
+	}
+	// what consults the allowlist or the hash does so for a non-empty cookie value only
+	allowF := c.field("RolloutController", "Allowlist")
+	nMember := 0
+	for _, b := range uses.Blocks {
+		for _, in := range b.Instrs {
+			switch x := in.(type) {
+			case *ssa.Call:
+				if o := calleeObj(x.Common()); o != nil && o.Pkg() != nil && o.Pkg().Path() == "slices" && o.Name() == "Contains" {
+					nMember++
+					c.ob(rule, "RequestUsesRolloutGroup/allowlist-only-with-a-cookie-value", x.Pos(), nonEmptyAt(b) && d.memberVerdict(c, x), true, "the allowlist may be consulted only for a non-empty cookie value, and on that value")
+				}
+			case *ssa.UnOp:
+				if x.Op == token.MUL && isLoadOfField(x, allowF) {
+					if _, isContainsArg := usedOnlyByContains(x); !isContainsArg {
+						nMember++
+						c.ob(rule, "RequestUsesRolloutGroup/allowlist-only-with-a-cookie-value", x.Pos(), nonEmptyAt(b), true, "the allowlist may be consulted only for a non-empty cookie value")
 					}
 				}
-				return true
-			}
-			return false
-		}
-		ok := okSrc(retVal(ret, 0), dominatingConds(ret.Block()), 0)
-		c.ob(rule, "RequestUsesRolloutGroup/result-provenance", ret.Pos(), ok, true, "the decision may be true only via the allowlist or the percentage test")
-	}
-	// valueInAllowlist == slices.Contains(rc.Allowlist, value)
-	okAL := false
-	for _, cs := range callsIn(al) {
-		if o := calleeObj(cs.common()); o != nil && o.Pkg() != nil && o.Pkg().Path() == "slices" && o.Name() == "Contains" {
-			if isLoadOfField(cs.common().Args[0], c.field("RolloutController", "Allowlist")) && cs.common().Args[1] == ssa.Value(al.Params[1]) {
-				okAL = true
 			}
 		}
 	}
-	if !okAL {
-		// the same written as a loop: true exactly under `element == value` for an element ranging over the whole list,
-		// false only after the loop
-		allowF := c.field("RolloutController", "Allowlist")
-		nTrue, okLoop := 0, true
-		for _, rc := range retCases(al) {
-			b, isConst := constBool(rc.vals[0])
-			if !isConst {
-				okLoop = false
-				continue
-			}
-			if b {
-				nTrue++
-				eq := false
+	if d.write != nil {
+		c.ob(rule, "RequestUsesRolloutGroup/percentage-only-with-a-cookie-value", d.write.Pos(), nonEmptyAt(d.write.Block()), true, "the percentage test may be made only for a non-empty cookie value")
+	}
+	okMember := false
+	for _, rc := range retCases(uses) {
+		v := rc.vals[0]
+		ok := false
+		why := ""
+		if b, isC := constBool(v); isC {
+			if !b {
+				// false: only for the empty value
 				for _, ce := range rc.conds {
-					cm, ok := ce.asCmp()
-					if !ok || cm.op != token.EQL {
-						continue
-					}
-					for _, pr := range [][2]ssa.Value{{cm.x, cm.y}, {cm.y, cm.x}} {
-						if src, full := fullRangeElem(pr[0]); full && isLoadOfField(src, allowF) && pr[1] == ssa.Value(al.Params[1]) {
-							eq = true
+					if cm, isCmp := ce.asCmp(); isCmp && cm.op == token.EQL {
+						for _, pr := range [][2]ssa.Value{{cm.x, cm.y}, {cm.y, cm.x}} {
+							if s, isS := constString(pr[1]); isS && s == "" && resolve(pr[0]) == d.val {
+								ok = true
+							}
 						}
 					}
 				}
-				if !eq {
-					okLoop = false
+				why = "a constant false answer is for the empty cookie value only"
+			} else {
+				// true: a membership verdict known true, or element == value inside a complete scan of the list
+				for _, ce := range rc.conds {
+					if ce.taken && d.memberVerdict(c, ce.cond) {
+						ok, okMember = true, true
+					}
+					if cm, isCmp := ce.asCmp(); isCmp && cm.op == token.EQL {
+						for _, pr := range [][2]ssa.Value{{cm.x, cm.y}, {cm.y, cm.x}} {
+							if src, full := fullRangeElem(pr[0]); full && isLoadOfField(src, allowF) && resolve(pr[1]) == d.val {
+								ok, okMember = true, true
+							}
+						}
+					}
 				}
-			} else if inLoop(rc.ret.Block()) || len(dominatingCondsOtherThanLoop(rc.ret)) != 0 {
-				okLoop = false
+				why = "a constant true answer needs the value to be on the allowlist"
 			}
+		} else if d.isHashCompare(c, v) {
+			ok = true
+		} else if d.memberVerdict(c, v) {
+			ok, okMember = true, true // `return member` (nothing else to consult)
+		} else {
+			why = "neither a constant, nor the allowlist verdict, nor the percentage comparison"
 		}
-		okAL = okLoop && nTrue >= 1
+		c.ob(rule, "RequestUsesRolloutGroup/result-provenance", rc.pos, ok, true, "the decision may be true only via the allowlist or the percentage test: "+why)
 	}
-	c.ob(rule, "valueInAllowlist/exact-membership", al.Pos(), okAL, true, "")
+	c.ob(rule, "RequestUsesRolloutGroup/exact-allowlist-membership", uses.Pos(), okMember && nMember >= 1, true, "a value on the allowlist is always in the rollout group: the allowlist verdict must be exact membership of the cookie value in rc.Allowlist")
 	// StopRollout clears the controller
 	sr := c.method("Service", "StopRollout")
 	okStop := false
@@ -600,4 +742,28 @@ func persistedFields(c *Ctx, rule, typ string, transient map[string]string) {
 		c.ob(rule, typ+"."+f.Name()+"/persisted", f.Pos(), f.Exported() && tag != "" && name != "-", true,
 			fmt.Sprintf("encoding/json only saves exported fields; exported=%v json tag=%q", f.Exported(), tag))
 	}
+}
+
+// usedOnlyByContains: the loaded slice is used as the first argument of slices.Contains and nothing else.
+func usedOnlyByContains(v ssa.Value) (ssa.Instruction, bool) {
+	refs := v.Referrers()
+	if refs == nil {
+		return nil, false
+	}
+	var site ssa.Instruction
+	for _, r := range *refs {
+		if _, isDbg := r.(*ssa.DebugRef); isDbg {
+			continue
+		}
+		call, ok := r.(*ssa.Call)
+		if !ok {
+			return nil, false
+		}
+		o := calleeObj(call.Common())
+		if o == nil || o.Pkg() == nil || o.Pkg().Path() != "slices" || o.Name() != "Contains" || call.Call.Args[0] != v {
+			return nil, false
+		}
+		site = call
+	}
+	return site, site != nil
 }
